@@ -150,4 +150,11 @@ theorem C03_helper (hn hb vn vb : String) (st : St) (v : RtVal) :
   simp [evalHelper, Node.beq_self, nMember, nObject, nIdentName, nIdent, nList]
   simp [BEq.beq, Node.beq, Node.beqList]
 
+/-- `v-slots` takes ANY expression (`this.$slots`, `getSlots()`, `c ? a : b`), not only an identifier or an object literal
+    (fix a570771: other values were dropped without a diagnostic and never evaluated). -/
+theorem C03_vslots_any_expression (cas : List String) (e : Node) (hne : ∀ a k, e ≠ .mk .jsxEmpty a k) :
+    parseVSlots (.mk .jsxExprContainer cas [e]) = .slots (some e) := by
+  unfold parseVSlots containerExpr
+  simp only
+
 end VueJsx
